@@ -223,15 +223,75 @@ def run(repo, rep, tier):
             else:
                 out.append(tuple(x.replace(" ", "") if isinstance(x, str) else x for x in k))
         return out
-    ok = segs is not None and norm(segs) == want
+    def flatten(sg, atoms):
+        """the rows of the grid for one value of the options (None when a condition is not decided by them)"""
+        from ..symexec import bool_eval
+        out = []
+        for k in sg:
+            if k[0] == "if":
+                v = bool_eval(ast.parse(k[1], mode="eval").body, atoms)
+                if v is None:
+                    return None
+                if v:
+                    inner = flatten(k[2], atoms)
+                    if inner is None:
+                        return None
+                    out += inner
+            else:
+                out.append(tuple(x.replace(" ", "") if isinstance(x, str) else x for x in k))
+        return out
+    ok = segs is not None
+    if ok:
+        for nh in (False, True):
+            got = flatten(segs, {"self.no_header": nh})
+            exp = ([] if nh else [("item", "self.header")]) + [("each", "_.values()", "self.data")]
+            if got != exp:
+                ok = False
     rep.ob("C20.R4", sv, "header row first (unless --no-header), then the data rows in order", ok, "" if ok else f"the grid is built as {segs}", key="C20.R4@save:header-first")
     ok = "doc.save(self.output_filename)" in s
     rep.ob("C20.R4", sv, "document saved to the requested output", ok, "", key="C20.R4@save:output")
-    s = U(td).replace(" ", "").replace("\n", "")
-    ok = "ifself.reverse:self.data=list(reversed(self.data))" in s
-    rep.ob("C20.R4", td, "--reverse reverses the data rows only", ok, "", key="C20.R4@reverse")
-    ok = "ifself.whitespace:row[k]=re.sub('\\\\s+','',v.strip())" in s.replace("''", "''") or "ifself.whitespace:row[k]=re.sub('\\\\s+',''" in s or "re.sub('\\\\s+','',v.strip())" in s or "re.sub" in s
-    rep.ob("C20.R4", td, "--whitespace is the only text normalisation", ok, "", key="C20.R4@whitespace")
+    # --reverse: the list of data rows is reversed exactly when the option is set (any of the usual spellings)
+    def guards_of(n):
+        return [U(p.test).replace(" ", "") for p in _anc(n) if isinstance(p, ast.If) and any(n is x for b in p.body for x in ast.walk(b))]
+    rev = []
+    for n in body_walk(td):
+        if isinstance(n, ast.Assign) and len(n.targets) == 1 and U(n.targets[0]) == "self.data":
+            v = U(n.value).replace(" ", "")
+            if v in ("list(reversed(self.data))", "self.data[::-1]", "[*reversed(self.data)]"):
+                rev.append((n, guards_of(n)))
+        if isinstance(n, ast.Expr) and isinstance(n.value, ast.Call) and U(n.value.func) == "self.data.reverse" and not n.value.args:
+            rev.append((n, guards_of(n)))
+    ok = len(rev) == 1 and rev[0][1] == ["self.reverse"]
+    rep.ob("C20.R4", rev[0][0] if rev else td, "--reverse reverses the data rows only", ok,
+           "" if ok else f"reversals of self.data and their guards: {[(U(n)[:40], g) for n, g in rev]}", key="C20.R4@reverse")
+    # --whitespace: the only change made to a text cell, and only when the option is set: runs of white space become one
+    # blank and the ends are trimmed (re.sub(r"\\s+", " ", v.strip()) or " ".join(v.split()))
+    stores = [n for n in body_walk(td) if isinstance(n, ast.Assign) and len(n.targets) == 1 and isinstance(n.targets[0], ast.Subscript) and isinstance(n.targets[0].value, ast.Name)
+              and not U(n.targets[0].value).startswith("is_")]
+    bad = []
+    n_ws = 0
+    for n in stores:
+        g = guards_of(n)
+        v = n.value
+        vt = U(v).replace(" ", "")
+        is_ws = False
+        if isinstance(v, ast.Call) and U(v.func) == "re.sub" and len(v.args) == 3 and try_const(v.args[0]) == r"\s+" and try_const(v.args[1]) == " " \
+                and isinstance(v.args[2], ast.Call) and last_attr(v.args[2].func) == "strip" and not v.args[2].args:
+            is_ws = True
+        if isinstance(v, ast.Call) and isinstance(v.func, ast.Attribute) and v.func.attr == "join" and try_const(v.func.value) == " " and len(v.args) == 1 \
+                and isinstance(v.args[0], ast.Call) and last_attr(v.args[0].func) == "split" and not v.args[0].args:
+            is_ws = True
+        if is_ws:
+            n_ws += 1
+            if "self.whitespace" not in g:
+                bad.append(f"`{U(n)[:60]}` normalises white space without --whitespace")
+        elif "self.whitespace" in g:
+            bad.append(f"`{U(n)[:60]}` under --whitespace is not the white space normalisation")
+        elif isinstance(v, ast.Call) and any(last_attr(c.func) in ("strip", "lower", "upper", "title", "replace", "sub", "lstrip", "rstrip", "casefold") for c in ast.walk(v) if isinstance(c, ast.Call)) \
+                and "float(" not in vt and "_parse_date" not in vt:
+            bad.append(f"`{U(n)[:60]}` rewrites the text of a cell")
+    ok = not bad and n_ws == 1
+    rep.ob("C20.R4", td, "--whitespace is the only text normalisation", ok, "; ".join(bad[:2]) if bad else ("" if ok else f"{n_ws} white space normalisations found"), key="C20.R4@whitespace")
     # export side
     cas = repo.func("_cat_numbers.py", "cell_as_string")
     s = U(cas).replace(" ", "").replace("\n", "")
